@@ -365,7 +365,7 @@ func (vc *VC) get(st *State, name string, sort Sort) Term {
 	if fresh && st.gen == 0 && name == "W_lockheld" {
 		vc.q.Raw(fmt.Sprintf("(assert (forall ((r Int) (p Path)) (! (not (select (select %s r) p)) :pattern ((select (select %s r) p)))))", cname, cname))
 	}
-	if fresh && st.gen == 0 && name == "W_lockcnt" {
+	if fresh && st.gen == 0 && (name == "W_lockcnt" || name == "W_wakes") {
 		vc.q.Raw(fmt.Sprintf("(assert (forall ((r Int) (p Path)) (! (= (select (select %s r) p) 0) :pattern ((select (select %s r) p)))))", cname, cname))
 	}
 	if fresh && st.gen == 0 && strings.HasPrefix(name, "W_cas_") && vc.casPre[name] {
@@ -420,8 +420,9 @@ func (vc *VC) havocAll(st *State, keepRoots []Term) {
 	st.parents = nil
 	for name, prev := range old {
 		sort := prev.Sort
-		if strings.HasPrefix(name, "L_") {
-			// engine-local ghost (iterators etc.) is never affected by calls
+		if strings.HasPrefix(name, "L_") || name == "W_wakes" {
+			// engine-local ghost (iterators etc.) is never affected by calls; W_wakes counts the wake-ups made by
+			// THIS function, which a callee cannot take back
 			st.mem[name] = prev
 			continue
 		}
